@@ -242,6 +242,13 @@ impl Ctx {
                     libc::symlink(dest.as_ptr(), c.as_ptr());
                 }
             }
+            OutMode::Dir3 => {
+                let c = cstr(&self.arg3);
+                unsafe {
+                    libc::mkdir(c.as_ptr(), 0o755);
+                }
+                to_file(&format!("{}/file", self.arg3), false);
+            }
             OutMode::RuleText(body) => {
                 let exe = std::env::current_exe()
                     .map(|p| p.to_string_lossy().into_owned())
